@@ -699,6 +699,14 @@ class YamlRepoImportBackend(RepoImportBackend):
                 fileDatasets.append(fileDataset)
         # Ingest everything into the datastore at once.
         if datastore is not None and fileDatasets:
+            # Leave alone the datasets this datastore already holds (a repeated
+            # or overlapping import): ingesting them again fails, and rolling
+            # that back removes the artifacts that were already there.
+            known = datastore.knows_these([ref for fileDataset in fileDatasets for ref in fileDataset.refs])
+            fileDatasets = [
+                fileDataset for fileDataset in fileDatasets if not all(known[ref] for ref in fileDataset.refs)
+            ]
+        if datastore is not None and fileDatasets:
             datastore.ingest(*fileDatasets, transfer=transfer, record_validation_info=record_validation_info)
         # Associate datasets with tagged collections.
         for collection, dataset_ids in self.tagAssociations.items():
